@@ -42,6 +42,18 @@ def make(gs, rng_seed):
         return g, coords, shape, s["order"]
     rng = np.random.default_rng(rng_seed)
     dim = gs["dim"]
+    if kind == "upoints" and gs.get("crs"):
+        # scattered points in a projected reference system; the oracle keeps them in the frame of the SOURCE grid's system
+        # (where finam measures distances), the finam grid gets the coordinates of its own system
+        from pyproj import Transformer
+
+        n = gs["n"]
+        pts = np.round(rng.random((n, 2)) * 2.0e5 + np.array([4.0e5, 5.4e6]), 3)
+        native = pts
+        if gs["crs"] != gs["frame"]:
+            native = np.column_stack(Transformer.from_crs(gs["frame"], gs["crs"]).transform(pts[:, 0], pts[:, 1]))
+        g = fm.UnstructuredPoints(native, order=gs.get("order", "C"), crs=gs["crs"])
+        return g, pts, (n,), gs.get("order", "C")
     if kind == "upoints":
         n = gs["n"]
         pts = rng.random((n, dim)) * np.array([6.0, 5.0, 4.0])[:dim] + np.array([9.0, -4.0, 6.0])[:dim]
@@ -94,7 +106,8 @@ class C16(Property):
         "source/target pairs from {uniform, rectilinear, ESRI in all layouts, unstructured triangle cells/points, scattered points} in 1-3 D, "
         "masks {none, random} on either side, nearest (random unique ids; identity between layouts of one grid) and linear for unstructured or "
         "masked sources (affine fields, with and without fill_with_nearest). non-trivial = >=4 unmasked target elements checked and source "
-        "and target differ in layout/geometry; distinct by the full pair spec"
+        "and target differ in layout/geometry; distinct by the full pair spec; every 16th case (nearest) couples scattered points given in two "
+        "different projected reference systems (UTM zones 31N-33N), judged by distances in the source system"
     )
     assumptions = (
         "structured *unmasked* linear sources are outside the property (and that scipy path cannot run in this environment)",
@@ -123,6 +136,12 @@ class C16(Property):
             same = True
         else:
             tgt = rand_grid(rnd, src["dim"])
+            same = False
+        if method == "nearest" and i % 16 == 6:
+            # different coordinate reference systems on the two sides (UTM zones; projected, easting/northing on both sides)
+            a, b = rnd.sample(["EPSG:32631", "EPSG:32632", "EPSG:32633"], 2)
+            src = dict(kind="upoints", dim=2, n=rnd.randint(6, 14), order=rnd.choice("CF"), crs=a, frame=a)
+            tgt = dict(kind="upoints", dim=2, n=rnd.randint(6, 14), order=rnd.choice("CF"), crs=b, frame=a)
             same = False
         smask = rnd.choice(["none", "random", "random"])
         if method == "linear" and src["kind"] == "struct":
@@ -261,6 +280,9 @@ class C16(Property):
         src_vals = vals.reshape(ns)[unm_s]
         checked = 0
         tol = 1e-9 * extent
+        if spec["src"].get("crs"):
+            tol = max(tol, 1e-3)  # a millimetre for the round trip through the coordinate transformation
+            out.count("pairs_with_different_reference_systems")
         if spec["method"] == "nearest":
             for e in range(nt):
                 if mt is not None and mt.ravel()[e]:
@@ -367,7 +389,7 @@ class C16(Property):
     def coverage_gaps(self, counters, tier):
         need = ["method_nearest", "method_linear", "target_elements_checked", "identity_between_layouts_checked", "inside_hull_checked",
                 "outside_hull_masked_checked", "outside_hull_filled_checked", "poison_runs", "grids_with_changed_data_location", "undeclared_masked_data_refused", "dim_1", "dim_2", "dim_3",
-                "sources_with_more_than_256_locations", "target_mask_given_to_the_adapter", "second_adapter_on_the_same_grid_objects", "second_publication_through_the_same_link", "src_struct_uniform", "src_struct_rect", "src_struct_esri", "src_upoints", "src_ucells", "src_ucells_mixed", "tgt_struct_uniform", "tgt_upoints", "tgt_ucells"]
+                "sources_with_more_than_256_locations", "target_mask_given_to_the_adapter", "second_adapter_on_the_same_grid_objects", "second_publication_through_the_same_link", "pairs_with_different_reference_systems", "src_struct_uniform", "src_struct_rect", "src_struct_esri", "src_upoints", "src_ucells", "src_ucells_mixed", "tgt_struct_uniform", "tgt_upoints", "tgt_ucells"]
         return [f"{k} never observed" for k in need if not counters.get(k)]
 
 
